@@ -51,7 +51,7 @@ class RunModel:
         q.expect_locals(self.mod, self.exit, ['self', 'reason', 'exc'])
 
     def scenario(self, site: str | None, kind: str | None, prop: str, loop_yes: bool, via_exit: bool = False, emitter: bool = True,
-                 start_emitted_in_init: bool = True) -> list[Path]:
+                 start_emitted_in_init: bool = True, second: tuple | None = None) -> list[Path]:
         """Evaluate Filter.run with a fault of `kind` injected at `site` (n-th occurrence for 'x#n')."""
         nth = 1
         base = site
@@ -74,6 +74,11 @@ class RunModel:
                 path.counters['site'] = c
                 if c == nth:
                     return [Exc(model.kref[kind], kind, call)]
+            if second is not None and ev.term == SITE_TERM[second[0]] and path.depth == 0 and path.counters.get('site', 0) >= nth:
+                c2 = path.counters.get('site2', 0) + 1      # a second, later fault (an exception in shutdown() of a run that is already ending by an exit)
+                path.counters['site2'] = c2
+                if c2 == 1:
+                    return [Exc(model.kref[second[1]], second[1], call)]
             return None
 
         def inline(call, rc, path):
@@ -295,6 +300,27 @@ def r1b(rr, repo):
         w = ' '.join(tr) + ' => ' + p.outcome_text()
         rr.ob("fault in shutdown(): the exit message says 'error'", "send_exit_msg('error')" in tr, mod, run, witness=w, key='shutdown-fault-msg')
         rr.ob('fault in shutdown(): run() raises', p.outcome is not None and p.outcome[0] == 'raise', mod, run, witness=w, key='shutdown-fault-raises')
+    # ... also when the run was already on its way out: a clean exit travels as an exception as well (Filter.Exit from exit() / the deadline / an obeyed exit message, PropagateError for an
+    # obeyed error exit), so "an exception is in flight" must not be taken for "the run has already failed" - a shutdown() that raises is an error whatever ended the loop
+    k2 = 0
+    for site, kind in (('loop_once', 'Exit'), ('loop_once#2', 'Exit'), ('loop_once', 'PropagateError')):
+        for prop in ('all', 'clean'):
+            for p in m.scenario(site, kind, prop, True, second=('shutdown', 'Exception')):
+                if p.outcome is not None and p.outcome[0] == 'loopcut':
+                    continue
+                if not any(e.kind == 'raise' and e.raw.startswith('<Exception raised by') for e in p.events):
+                    continue
+                k2 += 1
+                tr = trace(p)
+                w = f'{kind}@{site} then Exception@shutdown, prop_exit={prop}: ' + ' '.join(tr) + ' => ' + p.outcome_text()
+                rr.ob('fault in shutdown() of a run that is ending by an exit: run() raises', p.outcome is not None and p.outcome[0] == 'raise', mod, run, witness=w, key=f'shutdown-fault-after-exit-raises|{kind}')
+                if prop == 'all':
+                    rr.ob("fault in shutdown() of a run that is ending by an exit: the exit message says 'error'", "send_exit_msg('error')" in tr and "send_exit_msg('clean')" not in tr, mod, run, witness=w,
+                          key=f'shutdown-fault-after-exit-msg|{kind}')
+                elif kind == 'Exit':
+                    rr.ob("fault in shutdown() of a run that is ending by a clean exit, prop_exit='clean': nothing is announced", not [t for t in tr if t.startswith('send_exit_msg(')], mod, run, witness=w,
+                          key=f'shutdown-fault-after-exit-silent|{kind}')
+    rr.floor('shutdown-fault-after-exit scenarios reached', k2, 4, mod, run)
     n = 0
     for site in ('setup', 'loop_once', 'loop_once#2', 'shutdown'):
         for kind in ('Exit', 'PropagateError'):
